@@ -17,10 +17,10 @@ pub fn prop() -> Prop {
             "the font table is extracted from /repo/src/mono_font/generated at build time",
         ],
         subs: vec![
-            Sub::tape("primitives", 40, 30_000, 900_000, |d, cx| run(d, cx, 0)),
-            Sub::tape("polylines", 40, 6_000, 200_000, |d, cx| run(d, cx, 1)),
-            Sub::tape("images", 400, 4_000, 120_000, |d, cx| run(d, cx, 2)),
-            Sub::tape("text_random", 60, 12_000, 400_000, |d, cx| run(d, cx, 3)),
+            Sub::tape("primitives", 40, 240_000, 3_600_000, |d, cx| run(d, cx, 0)),
+            Sub::tape("polylines", 40, 50_000, 750_000, |d, cx| run(d, cx, 1)),
+            Sub::tape("images", 120, 30_000, 450_000, |d, cx| run(d, cx, 2)),
+            Sub::tape("text_random", 60, 100_000, 1_500_000, |d, cx| run(d, cx, 3)),
             Sub::enumerate("fonts_matrix", fonts_matrix),
         ],
     }
